@@ -1946,11 +1946,21 @@ def lifecycle_case(ctx: Ctx, scn: dict, verbose=False) -> None:
 
     real_cpu = os.cpu_count
     os.cpu_count = lambda: scn["cpus"]
+    app_loop = app_pool = None
     try:
-        driver = ad.AccessoryDriver(
+        kw = dict(
             persist_file=path, address="127.0.0.1", port=51840, mac="AA:BB:CC:DD:EE:10", pincode=b"031-45-154",
             async_zeroconf_instance=_FakeAdvertiser(),
         )
+        if scn.get("app_loop"):
+            # the application supplies the loop and its default pool (sized like the driver would) and stops both itself
+            from concurrent.futures import ThreadPoolExecutor
+
+            app_loop = asyncio.new_event_loop()
+            app_pool = ThreadPoolExecutor()
+            app_loop.set_default_executor(app_pool)
+            kw["loop"] = app_loop
+        driver = ad.AccessoryDriver(**kw)
     finally:
         os.cpu_count = real_cpu
     try:
@@ -1970,8 +1980,13 @@ def lifecycle_case(ctx: Ctx, scn: dict, verbose=False) -> None:
             bridge.add_accessory(Blocking(driver, f"Sensor {i}"))
         driver.add_accessory(bridge)
         workers = min(32, scn["cpus"] + 4)
-        t = threading.Thread(target=driver.start, daemon=True)
-        t.start()
+        if app_loop is None:
+            t = threading.Thread(target=driver.start, daemon=True)
+            t.start()
+        else:
+            t = threading.Thread(target=app_loop.run_forever, daemon=True)
+            t.start()
+            driver.start_service()
         want = min(scn["blockers"], workers)
         deadline = time.monotonic() + HANG_S
         while started[0] < want and time.monotonic() < deadline:
@@ -2006,12 +2021,23 @@ def lifecycle_case(ctx: Ctx, scn: dict, verbose=False) -> None:
             trace.append(op["op"])
             if i in scn.get("settle", []):
                 time.sleep(0.05)
-        driver.stop()
-        t.join(HANG_S)
-        if t.is_alive():
-            raise Hung("driver.start() did not return after stop()")
-        if driver.executor is not None:
-            driver.executor.shutdown(wait=True)  # whatever the pool still runs may finish; nothing is revived
+        if app_loop is None:
+            driver.stop()
+            t.join(HANG_S)
+            if t.is_alive():
+                raise Hung("driver.start() did not return after stop()")
+            if driver.executor is not None:
+                driver.executor.shutdown(wait=True)  # whatever the pool still runs may finish; nothing is revived
+        else:
+            try:
+                asyncio.run_coroutine_threadsafe(driver.async_stop(), app_loop).result(HANG_S)
+            except Exception as ex:  # noqa: BLE001
+                raise Hung(f"async_stop() did not return ({type(ex).__name__})") from None
+            app_pool.shutdown(wait=True)  # the application lets its pool finish what it was given
+            app_loop.call_soon_threadsafe(app_loop.stop)
+            t.join(HANG_S)
+            if not t.is_alive():
+                app_loop.close()
         mem = ref.canon_state(driver.state)
         which, why = judge_file(path, [("memory", mem)])
         saturated = scn["blockers"] >= workers
@@ -2024,7 +2050,7 @@ def lifecycle_case(ctx: Ctx, scn: dict, verbose=False) -> None:
         if which is None:
             ctx.fail(
                 "C15:file-stale-after-driver-stopped",
-                f"a driver owning its loop and pool ({workers} workers for {scn['cpus']} cpu(s), {scn['blockers']} accessories with a "
+                f"a driver {'on an application-supplied loop and pool' if app_loop is not None else 'owning its loop and pool'} ({workers} workers for {scn['cpus']} cpu(s), {scn['blockers']} accessories with a "
                 f"blocking run()); operations {trace} on the loop, then stop(); after start() had returned and the pool's "
                 f"threads had ended the state file is not the in-memory state "
                 f"({sum(1 for f in saves if f.cancelled())} of {len(saves)} submitted background saves were cancelled, "
@@ -2051,6 +2077,8 @@ def lifecycle_stream(ctx: Ctx):
     cases.append({"cpus": 1, "blockers": 7, "wind_down": 0.05, "ops": [A, {"op": "unpair", "id": A["id"]}], "settle": [0]})
     cases.append({"cpus": 1, "blockers": 6, "wind_down": 0.05, "ops": [A, {"op": "config_changed"}, B], "settle": []})
     cases.append({"cpus": 1, "blockers": 6, "wind_down": 0.0, "ops": [A], "settle": []})
+    cases.append({"cpus": 1, "blockers": 6, "wind_down": 0.05, "ops": [A], "settle": [], "app_loop": True})
+    cases.append({"cpus": 1, "blockers": 0, "wind_down": 0.0, "ops": [A, B], "settle": [], "app_loop": True})
     if _lite(ctx):
         cases = cases[2:5]
     for n in range(ctx.n(4, 60)):
@@ -2063,6 +2091,7 @@ def lifecycle_stream(ctx: Ctx):
             "cpus": cpus, "blockers": rng.choice([0, workers - 1, workers, workers + 1, workers + 3]),
             "wind_down": rng.choice([0.0, 0.02, 0.08]), "ops": ops,
             "settle": [i for i in range(len(ops)) if rng.random() < 0.3],
+            "app_loop": rng.random() < 0.25,
         })
     for scn in cases:
         lifecycle_case(ctx, dict(scn, name="lifecycle"))
